@@ -269,6 +269,44 @@ theorem C17_loops_within_fuel (s : St) (n : Nat) :
     and the observer clause `take-zero`. -/
 theorem C17_take_zero (s : St) : takeFirst s 0 = (s, .lst []) := takeFirst_zero s
 
+/-- the rarely used entry point `send(x)` with `x` not None, on a generator that has not started (`St.fresh`: nothing
+    pulled, not exhausted, no uncomputed task): it is rejected with TypeError and NOTHING has moved - in particular the
+    generator is not marked as stopped - for every such state (any body) -/
+theorem C17_send_rejected (s : St) (h : s.fresh = true) :
+    observe s .send =
+      (s, { op := .send, res := .raised .typeError, sib := none, pos := s.pulled, fin := s.stopped, bad := 0 }) := by
+  simp [observe, sendVal_eq, h]
+
+/-- ... and on every other state `send(x)` is `next()` (guard, exhaustion, or the body - suspended at a
+    `yield Value(...)` whose result it ignores - is resumed) -/
+theorem C17_send_started (s : St) (h : s.fresh = false) : sendVal s = next s := by
+  simp [sendVal_eq, h]
+
+/-- a rejected advance does not make the generator lose its Values: after any number of `send(x)` calls on a fresh
+    generator the generator is exactly as it was created, so `list_of_generator` still returns all the Values and
+    `take_first(gen, n)` the first `n` - for every body without marker payload, every `k` and `n` -/
+theorem C17_send_then_iterate (b : Body) (hm : noMarker b = true) (k n : Nat) :
+    finalState (init b) (List.replicate k .send) = init b ∧
+      (run (init b) (List.replicate k .send)).all (fun o => o.res == .raised .typeError) = true ∧
+      (listOf (finalState (init b) (List.replicate k .send))).2 = .lst (payloads b) ∧
+      (takeFirst (finalState (init b) (List.replicate k .send)) n).2 = .lst ((payloads b).take n) := by
+  have hf : (init b).fresh = true := by simp [St.fresh, St.blocked, init]
+  have h1 : ∀ k, finalState (init b) (List.replicate k .send) = init b := by
+    intro k
+    induction k with
+    | zero => rfl
+    | succ j ih => simp only [List.replicate_succ, finalState, C17_send_rejected _ hf]; exact ih
+  have h2 : ∀ k, (run (init b) (List.replicate k .send)).all (fun o => o.res == .raised .typeError) = true := by
+    intro k
+    induction k with
+    | zero => rfl
+    | succ j ih => simp only [List.replicate_succ, run, C17_send_rejected _ hf, List.all_cons]; simpa using ih
+  have h1 := h1 k
+  have h2 := h2 k
+  refine ⟨h1, h2, ?_, ?_⟩
+  · rw [h1]; exact (C17_list b hm).1
+  · rw [h1]; exact (C17_take b n hm).1
+
 /-! ## non-vacuity -/
 -- a history that exercises the guard, a task with consecutive awaits, END_OF_GENERATOR, repeated take_first
 example : spec [.await true, .value 1, .value 2, .await true, .await true, .value 3, .await true]
@@ -356,6 +394,49 @@ example : spec [.await false, .value 1, .value 2]
 example : spec [.await false, .await true, .value 1, .value 2]
     [ob .next (.fut none) 1 false, ob (.par 0 .next) (.item (.val 1)) 3 false (some (false, .raised .runtimeError))]
     = true := by decide
+-- send(x): rejected on the fresh generator (also after take_first(gen, 0), which does not start it), next() afterwards
+example : (run (init [.value 1, .await true, .value 2]) [.send, .take 0, .send, .next, .send, .send, .compute 1, .send,
+      .send]).map (·.res) =
+    [.raised .typeError, .lst [], .raised .typeError, .fut (some (.val 1)), .fut none, .raised .runtimeError,
+      .item (.val 2), .raised .stopIteration, .raised .stopIteration] := by decide
+-- the observer rejects what seeded change C17-9 does (a rejected send marks the generator as stopped: the Values are
+-- lost), a send that was not rejected, and a rejected send that moved the generator
+example : spec [.value 1, .value 2] [ob .send (.raised .typeError) 0 false, ob .list (.lst []) 0 false] = false := by decide
+example : spec [.value 1, .value 2] [ob .send (.raised .typeError) 0 false, ob (.take 1) (.lst []) 0 false] = false := by
+  decide
+example : spec [.value 1, .value 2] [ob .send (.raised .typeError) 0 false, ob .next (.raised .stopIteration) 0 false]
+    = false := by decide
+-- (a send that is not refused but is a correct next() changes the code, not the property: accepted by the observer,
+--  reported by the correspondence)
+example : spec [.value 1] [ob .send (.fut (some (.val 1))) 1 false] = true := by decide
+example : spec [.value 1] [ob .send (.fut (some (.val 2))) 1 false] = false := by decide
+example : spec [.value 1] [ob .send (.raised .stopIteration) 0 false] = false := by decide
+example : spec [.value 1] [ob .send (.raised .typeError) 1 false] = false := by decide
+example : spec [.value 1, .value 2] [ob .send (.raised .typeError) 0 false, ob .list (.lst [.val 1, .val 2]) 2 true]
+    = true := by decide
+-- C17_send_rejected / C17_send_started: both hypotheses are satisfiable
+example : (init [.value 1]).fresh = true ∧ (finalState (init [.value 1]) [.next]).fresh = false := by decide
+-- re-entrant advances from the body (direct expectation, no theorem): inside the task -> RuntimeError (the guard),
+-- inside send() -> ValueError (CPython), take_first(gen, 0) -> []; a log with a successful re-entrant advance is rejected
+example : reenterExpected [.await true, .value 1] 1 .next = .raised .runtimeError ∧
+    reenterExpected [.await true, .value 1] 0 .list = .raised .valueError ∧
+    reenterExpected [.await true, .value 1] 2 .send = .raised .valueError ∧
+    reenterExpected [.await true, .value 1] 1 (.take 0) = .lst [] := by decide
+example : reenterRun true [.await true, .value 1] [(0, .next), (1, .take 1), (2, .list)] 0 false
+      [(2, false, [⟨0, .next, .raised .valueError⟩, ⟨1, .take 1, .raised .runtimeError⟩]),
+       (2, true, [⟨2, .list, .raised .valueError⟩])] = none ∧
+    reenterRun false [.await true, .value 1] [(1, .next)] 0 false [(2, false, [⟨1, .next, .fut (some (.val 1))⟩])]
+      = some "reenter-guard@next" ∧
+    reenterRun false [.value 1] [(0, .next)] 0 false [(1, false, [])] = some "reenter-missing@next" := by decide
+-- inside send() the property only demands a refusal: another exception than CPython's ValueError is a change of the
+-- code (correspondence) but no violation; a successful advance or StopIteration is one
+example : reenterRun false [.value 1] [(0, .next)] 0 false [(1, false, [⟨0, .next, .raised .runtimeError⟩])] = none ∧
+    reenterRun true [.value 1] [(0, .next)] 0 false [(1, false, [⟨0, .next, .raised .runtimeError⟩])]
+      = some "reenter-rejected@next" ∧
+    reenterRun false [.value 1] [(0, .next)] 0 false [(1, false, [⟨0, .next, .raised .stopIteration⟩])]
+      = some "reenter-rejected@next" ∧
+    reenterRun false [.value 1] [(0, .list)] 0 false [(1, false, [⟨0, .list, .lst [.val 1]⟩])]
+      = some "reenter-rejected@list" := by decide
 -- a body with a marker payload is outside the statement: `spec` is false, the driver judges it by `outsideClause`
 example : spec [.valueEnd] [] = false ∧ specClause [.valueEnd] [] = "marker-payload" := by decide
 example : outsideClause (run (init [.value 1, .valueEnd, .await true]) [.next, .next, .take 3, .list, .next]) = "ok" := by
